@@ -89,12 +89,16 @@ class W:
             i = j + 1
         return items
 
-    def domain_ast(self, param_style="single", types_items=None, sections=None):
+    def domain_ast(self, param_style="single", types_items=None, sections=None, const_style="single"):
         secs = [["domain", self.name], [":requirements"] + self.requirements]
         if self.types or types_items is not None:
             secs.append([":types"] + (types_items if types_items is not None else self.types_items()))
         if self.constants:
-            secs.append([":constants"] + self.typed_items(list(self.constants.items()), "single"))
+            pairs = list(self.constants.items())
+            if const_style == "untyped_tail":
+                # root-typed constants last, written bare (a legal way to declare them)
+                pairs = [x for x in pairs if x[1] != "object"] + [x for x in pairs if x[1] == "object"]
+            secs.append([":constants"] + self.typed_items(pairs, const_style))
         secs.append([":predicates"] + [[n] + self.typed_items(ps, param_style) for n, ps in self.preds.items()])
         if self.funcs:
             secs.append([":functions"] + [[n] + self.typed_items(ps, "single") for n, ps in self.funcs.items()])
@@ -178,7 +182,8 @@ def gen_world(rng, n_types=None, n_preds=None, n_funcs=None, n_consts=None, n_ob
         w.objects[nm] = ty
     nc = rng.choice([0, 0, 1, 2]) if n_consts is None else n_consts
     for i in range(nc):
-        w.constants[CONST_NAMES[i]] = rng.choice(tnames)
+        # mostly declared types; now and then the root type itself
+        w.constants[CONST_NAMES[i]] = "object" if (not untyped and rng.random() < 0.2) else rng.choice(tnames)
     np_ = n_preds or rng.randint(2, 4)
     pnames = ["p", "q", "p-q", "r_s", "pq"]
     for i in range(np_):
